@@ -9,6 +9,7 @@
 
 use crate::guard::guarded;
 use crate::model::big;
+use crate::model::ed25519 as med;
 use crate::rng::{data, Rng};
 use crate::trace::{Obs, Op, Scenario, Tier, Trace, Violation};
 use cryptoxide::ed25519;
@@ -25,6 +26,14 @@ pub const S_OTHER_KEY: u8 = 7;
 pub const S_OTHER_SIG: u8 = 8;
 pub const S_TORSION: u8 = 9;
 pub const S_TORSION_NONCANONICAL_R: u8 = 10;
+// entries whose specified verdict comes from the independent Ed25519 model (model::ed25519)
+pub const S_MODEL_HONEST: u8 = 11;
+pub const S_RANDOM_TRIPLE: u8 = 12;
+pub const S_NONPOINT_KEY: u8 = 13;
+pub const S_MIXED_ORDER_KEY: u8 = 14;
+pub const S_BOUNDARY_S: u8 = 15;
+pub const S_SPECIAL_R: u8 = 16;
+pub const S_NONCANONICAL_KEY: u8 = 17;
 const KINDS: &[&str] = &[
     "deliver_untouched",
     "flip_signature_bit",
@@ -37,6 +46,13 @@ const KINDS: &[&str] = &[
     "substitute_other_messages_signature",
     "small_order_key_forgery",
     "small_order_key_forgery_with_noncanonical_r",
+    "model_check_of_honest_triple",
+    "random_triple",
+    "non_point_public_key",
+    "mixed_order_public_key_signed_by_real_signer",
+    "boundary_value_s",
+    "special_encoding_r",
+    "noncanonical_public_key_encoding",
 ];
 
 /// encodings that decode to the identity but are not its canonical 32 bytes:
@@ -142,6 +158,28 @@ impl SigChannel {
         for j in 0..8 {
             ops.push(Op::new(0, S_TORSION).arg(j).seed(rng.data_seed()));
         }
+        // adversarial triples judged by the independent model
+        ops.push(Op::new(0, S_MODEL_HONEST));
+        for _ in 0..3 {
+            ops.push(Op::new(0, S_RANDOM_TRIPLE).seed(rng.data_seed()));
+        }
+        for _ in 0..2 {
+            ops.push(Op::new(0, S_NONPOINT_KEY).seed(rng.data_seed()));
+        }
+        for j in 1..8u64 {
+            for _ in 0..2 {
+                ops.push(Op::new(0, S_MIXED_ORDER_KEY).arg(j).seed(rng.data_seed()));
+            }
+        }
+        for v in 0..8u64 {
+            ops.push(Op::new(0, S_BOUNDARY_S).arg(v));
+        }
+        for v in 0..12u64 {
+            ops.push(Op::new(0, S_SPECIAL_R).arg(v).seed(rng.data_seed()));
+        }
+        for v in 0..4u64 {
+            ops.push(Op::new(0, S_NONCANONICAL_KEY).arg(v).seed(rng.data_seed()));
+        }
         // R given as a non-canonical encoding of the point the equation yields: byte equality must fail
         for j in 0..8u64 {
             for e in 0..3u64 {
@@ -193,6 +231,7 @@ impl Scenario for SigChannel {
             let mut p = pk;
             let mut s = sig;
             let mut want = false;
+            let mut use_model = false;
             match op.k {
                 S_NONE => want = true,
                 S_SIG_BIT => {
@@ -255,6 +294,108 @@ impl Scenario for SigChannel {
                     want = p != [0u8; 32];
                     obs.hit(if want { "fault.byzantine_small_order_forgery_must_accept" } else { "fault.byzantine_all_zero_key_must_reject" });
                 }
+                S_MODEL_HONEST => use_model = true,
+                S_RANDOM_TRIPLE => {
+                    p.copy_from_slice(&data(op.seed | 16, 32));
+                    s.copy_from_slice(&data((op.seed ^ 0x51) | 16, 64));
+                    if op.seed & 2 == 0 {
+                        s[63] &= 0x0f; // half of them with S below 2^252, so that the point arithmetic is reached
+                    }
+                    use_model = true;
+                }
+                S_NONPOINT_KEY => {
+                    // a canonical y that is not the y-coordinate of any point, under an otherwise honest signature
+                    let dconst = med::d();
+                    let mut found = false;
+                    for t in 0..64u64 {
+                        let mut cand = [0u8; 32];
+                        cand.copy_from_slice(&data(crate::rng::splitmix64(op.seed ^ t) | 16, 32));
+                        cand[31] &= 0x3f;
+                        if med::decode(&cand, &dconst).0 == med::Decoded::Invalid {
+                            p = cand;
+                            found = true;
+                            break;
+                        }
+                    }
+                    if !found {
+                        continue;
+                    }
+                    use_model = true;
+                }
+                S_MIXED_ORDER_KEY => {
+                    // Byzantine signer: public key A + T (T of small order) and a signature made by the REAL
+                    // signer over those key bytes; valid iff the torsion part cancels, which only the model can tell
+                    let j = ((op.arg % 8) as usize).max(1);
+                    let ap = match med::add_encoded(&pk, &TORSION[j]) {
+                        Some(x) => x,
+                        None => continue,
+                    };
+                    let (kp, _) = guarded(|| ed25519::keypair(&seed)).map_err(|e| Violation::new("unexpected-panic", i, "keypair", e, "ed25519"))?;
+                    let mut kp2 = kp;
+                    kp2[32..].copy_from_slice(&ap);
+                    m = data(op.seed | 16, 1 + (op.seed % 40) as usize);
+                    s = guarded(|| ed25519::signature(&m, &kp2)).map_err(|e| Violation::new("unexpected-panic", i, "signature", e, "ed25519"))?;
+                    p = ap;
+                    use_model = true;
+                }
+                S_BOUNDARY_S => {
+                    let mut v = [0u8; 32];
+                    match op.arg % 8 {
+                        0 => {}
+                        1 => v[0] = 1,
+                        2 => {
+                            v = big::L;
+                            v[0] -= 1;
+                        }
+                        3 => v = big::L,
+                        4 => {
+                            v = big::L;
+                            v[0] += 1;
+                        }
+                        5 => v[31] = 0x10,
+                        6 => {
+                            v = [0xff; 32];
+                            v[31] = 0x0f;
+                        }
+                        _ => v = [0xff; 32],
+                    }
+                    s[32..].copy_from_slice(&v);
+                    use_model = true;
+                }
+                S_SPECIAL_R => {
+                    let r: [u8; 32] = match op.arg % 12 {
+                        a @ 0..=7 => TORSION[a as usize],
+                        a @ 8..=10 => NONCANONICAL_IDENTITY[(a - 8) as usize],
+                        _ => {
+                            let mut x = [0u8; 32];
+                            x.copy_from_slice(&data(op.seed | 16, 32));
+                            x
+                        }
+                    };
+                    s[..32].copy_from_slice(&r);
+                    use_model = true;
+                }
+                S_NONCANONICAL_KEY => {
+                    // y >= p encodings of small-order points: the property text does not fix the verdict
+                    // (recorded, compared across builds, not judged)
+                    p = match op.arg % 4 {
+                        0 => NONCANONICAL_IDENTITY[0],
+                        1 => NONCANONICAL_IDENTITY[1],
+                        2 => NONCANONICAL_IDENTITY[2],
+                        _ => {
+                            let mut x = [0xffu8; 32]; // y = p (an order-4 point given as 2^255-19), sign set
+                            x[0] = 0xed;
+                            x
+                        }
+                    };
+                    match torsion_message(&p, op.seed) {
+                        Some(tm) => m = tm,
+                        None => continue,
+                    }
+                    s = [0u8; 64];
+                    s[..32].copy_from_slice(&TORSION[0]);
+                    use_model = true;
+                }
                 S_TORSION_NONCANONICAL_R => {
                     let j = (op.arg % 8) as usize;
                     let e = ((op.arg / 8) % 3) as usize;
@@ -285,12 +426,35 @@ impl Scenario for SigChannel {
                 S_PLUS_KL => "fault.s_plus_kL",
                 S_OTHER_KEY => "fault.other_signers_key",
                 S_OTHER_SIG => "fault.other_messages_signature",
+                S_MODEL_HONEST => "channel.untouched_model_checked",
+                S_RANDOM_TRIPLE => "fault.byzantine_random_triple",
+                S_NONPOINT_KEY => "fault.byzantine_non_point_key",
+                S_MIXED_ORDER_KEY => "fault.byzantine_mixed_order_key",
+                S_BOUNDARY_S => "fault.boundary_value_s",
+                S_SPECIAL_R => "fault.special_encoding_r",
+                S_NONCANONICAL_KEY => "fault.byzantine_noncanonical_key_encoding",
                 S_TORSION_NONCANONICAL_R => "fault.byzantine_small_order_key_noncanonical_r",
                 _ => "fault.byzantine_small_order_key",
             });
             obs.cov(((op.k as u32) << 4) | (lenc << 1) | want as u32);
             let got = guarded(|| ed25519::verify(&m, &p, &s)).map_err(|e| Violation::new("unexpected-panic", i, "verify returns a verdict", e, KINDS[op.k as usize]))?;
             obs.out_flag("verify", got);
+            if use_model {
+                match med::verify(&m, &p, &s) {
+                    med::Verdict::Accept => {
+                        want = true;
+                        obs.hit("model.verdict_accept");
+                    }
+                    med::Verdict::Reject => {
+                        want = false;
+                        obs.hit("model.verdict_reject");
+                    }
+                    med::Verdict::Unspecified => {
+                        obs.hit("model.verdict_unspecified_not_judged");
+                        continue;
+                    }
+                }
+            }
             if got != want {
                 let kind = if got { "accepted-corrupted" } else { "rejected-honest" };
                 return Err(Violation::new(kind, i, format!("{}", want), format!("{}", got), format!("ed25519 verify after '{}' arg {} (message {} bytes, signer {})", KINDS[op.k as usize], op.arg, m.len(), if extended { "extended" } else { "seed" })));
